@@ -67,6 +67,7 @@ type FuncContract struct {
 	Cas        []*Clause // allowed transitions of the package's atomic cell at every compare-and-swap of this function
 	QInst      bool // bounded quantifiers get instances at the range indices; forall goals are proved at a fresh constant
 	IndexFn    bool // element positions are ix(off, i) instead of off + i (robust quantifier patterns)
+	NoAxioms   bool // the package's axioms are not assumed in this function's obligations (keeps unrelated quantified axioms out)
 	Lean       bool // obligations checked where a path ends (return, cut back edge) are not assumed afterwards
 	Uses       []string
 	Dispatch   []string // interface methods resolved by dynamic type at call sites (see dispatch.go)
@@ -114,12 +115,13 @@ type PkgContracts struct {
 	AtomicCells []*atomicCell
 	Monitors    []*monitorDecl
 	PureFields []string // TYPE.FIELD: calls through this function-valued struct field are pure and deterministic (assumed)
+	PureFuncs  []string // TYPE: calls of values of this named function type are pure and deterministic (assumed)
 	Opaque  map[string]bool
 	File    string
 	Raw     string
 }
 
-var kwRe = regexp.MustCompile(`^(import|func|property|requires|names|ensures|modifies|loop|may_panic|trusted|nosafety|timeout|spec|lemma|axiom|panics|table|nooverflow|lean|indexfn|qinst|cas|tallies|counts|stream|dispatch|atomiccell|monitor|closed|purefield|hint|uses|reveals)\b`)
+var kwRe = regexp.MustCompile(`^(import|func|property|requires|names|ensures|modifies|loop|may_panic|trusted|nosafety|timeout|spec|lemma|axiom|panics|table|nooverflow|noaxioms|lean|indexfn|qinst|cas|tallies|counts|stream|dispatch|atomiccell|monitor|closed|purefield|purefunc|hint|uses|reveals)\b`)
 
 func parseContractFile(path string) (*PkgContracts, error) {
 	f, err := os.Open(path)
@@ -245,6 +247,10 @@ func parseContractFile(path string) (*PkgContracts, error) {
 			last = cl
 		case "purefield":
 			pc.PureFields = append(pc.PureFields, rest)
+			cur, curLemma, curTable = nil, nil, nil
+			last = nil
+		case "purefunc":
+			pc.PureFuncs = append(pc.PureFuncs, rest)
 			cur, curLemma, curTable = nil, nil, nil
 			last = nil
 		case "table":
@@ -422,6 +428,9 @@ func parseContractFile(path string) (*PkgContracts, error) {
 			last = nil
 		case "lean":
 			cur.Lean = true
+			last = nil
+		case "noaxioms":
+			cur.NoAxioms = true
 			last = nil
 		case "indexfn":
 			cur.IndexFn = true
